@@ -213,7 +213,11 @@ func GenProgram(rng *rand.Rand, faults bool, hookable bool) *Program {
 			add(Action{Kind: "rmclient", Lane: c, Client: c})
 		case w < 70:
 			k := rng.IntN(p.Keys)
-			add(Action{Kind: "ev", Lane: srcLane(k), Key: k, G: rng.IntN(4)})
+			lane := srcLane(k)
+			if rng.IntN(4) == 0 {
+				lane = ctlLane // a second goroutine of the same source: Update calls may overlap
+			}
+			add(Action{Kind: "ev", Lane: lane, Key: k, G: rng.IntN(4)})
 		case w < 74:
 			s := la[rng.IntN(len(la))]
 			k := p.Specs[s].Key
@@ -249,7 +253,11 @@ func GenProgram(rng *rand.Rand, faults bool, hookable bool) *Program {
 			if faults && rng.IntN(2) == 0 {
 				kind = "done"
 			}
-			add(Action{Kind: kind, Lane: ctlLane, Key: k, Back: 1 + rng.IntN(2), G: rng.IntN(4)})
+			back := 1 + rng.IntN(2)
+			if kind == "ev" && rng.IntN(2) == 0 {
+				back = 0 // a second goroutine of the source emitting next to the key's own lane
+			}
+			add(Action{Kind: kind, Lane: ctlLane, Key: k, Back: back, G: rng.IntN(4)})
 		default:
 			add(Action{Kind: "barrier", Wait: true})
 		}
